@@ -199,6 +199,25 @@ theorem fieldSet_safe {cfg : Cfg} (hs : cfg.snapshot = true) (src : Src) (x : Na
       · exact ok_safe h
     · exact ok_safe h
 
+theorem fieldSetter_safe {cfg : Cfg} (hs : cfg.snapshot = true) (src : Src) (f : Setter) {s : State} (h : NoCont s) :
+    (fieldSetter cfg s src f).Safe := by
+  have hset : ∀ (st : State) (o : ObjId), NoCont st → (applySetter f st o).Safe := by
+    intro st o hst
+    cases f with
+    | target x => exact ok_safe hst
+    | name n => exact ok_safe (setTargetName_noCont hst o n)
+  unfold fieldSetter
+  split
+  · exact ok_safe h
+  · exact ok_safe h
+  · exact hset { s with log := s.log ++ [.visited _] } _ h
+  · split
+    · split
+      · exact fanLoop_safe hset _ h
+      · rename_i e; exact absurd e (receivers_ne_ub (evalSrc_noCont hs h src))
+      · exact ok_safe h
+    · exact ok_safe h
+
 theorem stmt_safe {cfg : Cfg} (hs : cfg.snapshot = true) {s : State} (h : NoCont s) (st : Stmt) :
     (stmt cfg s st).Safe := by
   cases st with
@@ -210,6 +229,7 @@ theorem stmt_safe {cfg : Cfg} (hs : cfg.snapshot = true) {s : State} (h : NoCont
   | fanDelete src =>
     exact fanOut_safe hs (run := fun st o => .ok (destroy st o)) (fun st o hst => ok_safe (destroy_noCont hst o)) src (note_noCont cfg h _)
   | fieldSet src x => exact fieldSet_safe hs src x (note_noCont cfg h _)
+  | fieldSetter src f => exact fieldSetter_safe hs src f (note_noCont cfg h _)
 
 theorem run_safe {cfg : Cfg} (hs : cfg.snapshot = true) (l : List Stmt) {s : State} (h : NoCont s) :
     (run cfg l s).Safe := by
